@@ -10,6 +10,9 @@ CONDS = [
          'line + 1, context = the lines with a caret under that column) incl. i = len(p)',
          'p symbolic over {a, b, \\n, \\r}, len <= 4 quick / 7 thorough; every offset 0..len(p)',
          timeout={'quick': 110, 'thorough': 900}),
+    Cond('context_enum_ok', 'the same for every pattern of length <= 4 over {a, LF, CR, FF, VT, FS, NEL, LS, PS, space} and every '
+         'offset, for get_pattern_context and for SelectorSyntaxError: only LF, CRLF and CR end a line', '11111 patterns x all offsets',
+         timeout={'quick': 100, 'thorough': 300}, parts={'quick': 4, 'thorough': 4}),
     Cond('error_attrs_ok', 'SelectorSyntaxError(msg, p, i).line/col/context == reference and context is in the message',
          'len(p) <= 3', timeout={'quick': 60, 'thorough': 300}),
     Cond('parser_offsets_ok', 'for every SelectorSyntaxError the real parser raises, (context, line, col) equals the '
